@@ -366,6 +366,7 @@ macro_rules! gen_exec1 {
                 },
                 Call::Cow => Outcome::skip("cow on a slot without shared storage"),
                 Call::Sibling { .. } => Outcome::skip("sibling on a slot whose storage cannot be shared"),
+                Call::PrivBuild | Call::PrivQuery { .. } | Call::PrivSend | Call::PrivReap => Outcome::skip("thread-affinity operations are executed by engine A itself"),
             }
         }
     };
@@ -514,6 +515,7 @@ macro_rules! gen_exec2 {
                 },
                 Call::Cow => Outcome::skip("cow on a slot without shared storage"),
                 Call::Sibling { .. } => Outcome::skip("sibling on a slot whose storage cannot be shared"),
+                Call::PrivBuild | Call::PrivQuery { .. } | Call::PrivSend | Call::PrivReap => Outcome::skip("thread-affinity operations are executed by engine A itself"),
             }
         }
     };
